@@ -228,10 +228,16 @@ func c10WriteWorkspace(root string, filler int) map[string]string {
 	return files
 }
 
+// c10InitExtra: further initialization options of a scenario (set before c10Setup by c10SetupLive)
+var c10InitExtra = c10o{}
+
 func (c *c10Client) initialize() string {
 	opts := c10o{"client": "vsc", "LocalRun": true, "AllEnable": true, "CheckSyntax": true, "CheckNoDefine": true,
 		"CheckAfterDefine": true, "CheckLocalNoUse": true, "CheckReferNoFile": true, "CheckFuncParam": true,
 		"EnableReport": false}
+	for k, v := range c10InitExtra {
+		opts[k] = v
+	}
 	r := c.call("initialize", c10o{"processId": 1, "rootPath": c.root, "rootUri": "file://" + c.root,
 		"capabilities": c10o{}, "initializationOptions": opts,
 		"workspaceFolders": []c10o{}})
